@@ -79,6 +79,48 @@ pub fn step_check(s: &In) -> Result<(), Violation> {
     Ok(())
 }
 
+/// "When handlers finish, reading resumes": at a quiescent point of a healthy connection a complete PUBLISH
+/// that was delivered must have reached its handler whenever the limits leave room for it - fewer handlers
+/// executing than max_receive and strictly fewer bytes in flight than max_receive_size (strictly: the
+/// statement does not say on which side of the limit equality falls). Servers only (the pausing
+/// middleware); histories with a publish delivered in pieces are left to the drain oracle.
+pub fn stall_check(s: &In) -> Result<(), Violation> {
+    if s.cfg.ep.role != Role::Server || !healthy(s) || !streamed(s).is_empty() || !s.corked.is_empty() || !s.window_open {
+        return Ok(());
+    }
+    // a SUBSCRIBE / UNSUBSCRIBE still inside the (gated) protocol service holds later packets back by design:
+    // that is not one of the receive limits
+    if s.conn.pgates.executing() > 0 || !s.conn.pgates.waiting().is_empty() {
+        return Ok(());
+    }
+    let (max_n, max_sz) = limits(s);
+    let v5 = v5x(s);
+    let hs = handler_records(s);
+    let running: Vec<usize> = hs.iter().filter(|h| h.exit.is_none() && !h.dropped).map(|h| 3 + if h.qos > 0 { 2 } else { 0 } + if v5 { 1 } else { 0 } + h.size).collect();
+    let total: usize = running.iter().sum();
+    // v5: the count is enforced by refusing, not by pausing
+    let room_n = v5 || max_n == 0 || running.len() < max_n;
+    let room_sz = max_sz == 0 || total < max_sz;
+    if !(room_n && room_sz) {
+        return Ok(());
+    }
+    for (i, snt) in s.sent.iter().enumerate() {
+        let Some(Pkt::Publish { payload, .. }) = &snt.pkt else { continue };
+        if snt.complete_step.is_none() {
+            continue;
+        }
+        if !hs.iter().any(|h| h.payload.first() == payload.first() && h.size == payload.len()) {
+            return Err(viol(
+                s,
+                "needless-stall",
+                format!("max_receive={max_n} max_receive_size={}", if max_sz == 0 { "0" } else if max_sz < 1000 { "small" } else { "large" }),
+                format!("PUBLISH #{i} was delivered but is not being handled although only {} handlers ({total} bytes) are executing", running.len()),
+            ));
+        }
+    }
+    Ok(())
+}
+
 pub fn final_check(s: &In) -> Result<(), Violation> {
     step_check(s)?;
     let v5 = s.conn.ver() == Ver::V5;
@@ -167,6 +209,8 @@ pub fn configs(tier: Tier) -> Vec<InCfg> {
                 }
                 let mut alphabet = vec![q(1, 5), q(1, 14), q(0, 5), T::PubSplit { qos: 1, id: 0, len: 12 }, q(2, 26)];
                 if sz == 30 {
+                    // a publish of exactly the byte limit (library's size = packet without fixed header)
+                    alphabet.push(q(1, if ver == Ver::V5 { 24 } else { 25 }));
                     // a streamed publish that alone exceeds the byte limit (the one packet of slack): its remaining
                     // chunks must still be read
                     alphabet.push(T::PubSplit { qos: 1, id: 0, len: 40 });
@@ -243,7 +287,7 @@ pub fn run(tier: Tier) -> i32 {
     for (i, c) in configs(tier).iter().enumerate() {
         ck.explore::<In>("inbound", i, c, &ecfg);
     }
-    ck.rule = "v3 server (default in-flight middleware), v5 server (Receive Maximum + size middleware), v5 client (receive maximum): max_receive in {1,2} (quick) / {0,1,2,3,4} (thorough) x max_receive_size in {0, 30 bytes, 64 KiB}; bursts of up to 3 (quick) / 4 (thorough) publishes over {q1 5 B, q1 14 B, q0 5 B, q1 12 B split in two writes, q2 26 B} against gated handlers, deliveries and completions in every order with <= 1 injection while runnable; invariants after every step: executing handlers <= max_receive, their packet bytes <= max_receive_size + largest packet; v5: a peer within Receive Maximum is never answered 0x93, also while SUBSCRIBE / UNSUBSCRIBE requests are being handled (gated protocol service); drain: all gates opened => every complete publish handled with its full payload".into();
+    ck.rule = "v3 server (default in-flight middleware), v5 server (Receive Maximum + size middleware), v5 client (receive maximum): max_receive in {1,2} (quick) / {0,1,2,3,4} (thorough) x max_receive_size in {0, 30 bytes, 64 KiB}; bursts of up to 3 (quick) / 4 (thorough) publishes over {q1 5 B, q1 14 B, q0 5 B, q1 12 B split in two writes, q2 26 B, with the 30-byte limit also a 40 B split publish and one of exactly 30 packet bytes} against gated handlers, deliveries and completions in every order with <= 1 injection while runnable; invariants after every step: executing handlers <= max_receive, their packet bytes <= max_receive_size + largest packet; v5: a peer within Receive Maximum is never answered 0x93, also while SUBSCRIBE / UNSUBSCRIBE requests are being handled (gated protocol service); at every quiescent point (servers, no publish delivered in pieces): a delivered publish is being handled whenever fewer handlers than max_receive and strictly fewer bytes than max_receive_size are executing; drain: all gates opened => every complete publish handled with its full payload".into();
     ck.assumptions = vec!["FIFO task order of ntex-rt; nondeterminism = timing of environment events (DESIGN 2.4)".into()];
     ck.finish()
 }
